@@ -5,6 +5,7 @@ import (
 	"encoding/json"
 	"errors"
 	"fmt"
+	"io"
 
 	"github.com/bytedance/gopkg/lang/mcache"
 	"github.com/cloudwego/gopkg/bufiox"
@@ -248,6 +249,9 @@ func c17StreamOne(c *mc.Ctx, k c17Stream, enc []byte) {
 		bad("no-error", "the data ran out but the call succeeded")
 		return
 	}
+	if !er.ErrReturned && errors.Is(err, io.ErrNoProgress) {
+		return // the reader gave up on a source that kept answering (0, nil) before the source produced its error
+	}
 	if !errors.Is(err, E) {
 		bad("source-error-not-matchable", "the failure %q (%T) does not match the source's error under errors.Is", err, err)
 		return
@@ -402,6 +406,12 @@ func c17Run(c *mc.Ctx) {
 				for _, wl := range []bool{false, true} {
 					for e := range termErrs { // innermost: consecutive cases differ in the error value (stale pooled state shows)
 						c17StreamOne(c, c17Stream{Method: v.method, Type: t, Cut: cut, Env: EnvCfg{Chunk: ch, ErrWithLast: wl, Err: e, AfterErr: (cut + e) % 2}}, enc)
+					}
+				}
+				if ch == 0 && (cut < 12 || cut%97 == 0) {
+					// the source answers N reads with (0, nil) once its data is exhausted and only then returns its error
+					for _, tz := range []int{1, 63, 98, 99, 100, 127, 128, 255, 256, 300} {
+						c17StreamOne(c, c17Stream{Method: v.method, Type: t, Cut: cut, Env: EnvCfg{TailZeros: tz, Err: (cut + tz) % len(termErrs)}}, enc)
 					}
 				}
 			}
